@@ -34,6 +34,9 @@ pub enum Fault {
     Overlong { seg: u16, field: u8, digits: u8 },
     /// a character outside [A-Za-z0-9+/,;] inserted at a byte offset of the mappings text
     Foreign { at: u16, ch: char },
+    /// the foreign character together with a separator (`c,` or `,c`): at a segment boundary it is
+    /// a segment of its own
+    ForeignSegment { at: u16, ch: char, sep_first: bool },
 }
 
 #[derive(Clone, Debug, Hash, Serialize, Deserialize)]
@@ -124,6 +127,7 @@ fn apply(d: &DocModel, faults: &[Fault]) -> (String, Vec<&'static str>) {
     let mut lines = segments(d);
     let mut labels = vec![];
     let mut foreign: Vec<(u16, char)> = vec![];
+    let mut foreign_seg: Vec<(u16, char, bool)> = vec![];
     for f in faults {
         match f {
             Fault::Arity { seg, to } => {
@@ -198,9 +202,19 @@ fn apply(d: &DocModel, faults: &[Fault]) -> (String, Vec<&'static str>) {
                 }
             }
             Fault::Foreign { at, ch } => foreign.push((*at, *ch)),
+            Fault::ForeignSegment { at, ch, sep_first } => foreign_seg.push((*at, *ch, *sep_first)),
         }
     }
     let mut text = render(&lines);
+    for (at, ch, sep_first) in foreign_seg {
+        let mut off = idx16(at, text.len() + 1);
+        while !text.is_char_boundary(off) {
+            off -= 1;
+        }
+        let ins = if sep_first { format!(",{ch}") } else { format!("{ch},") };
+        text.insert_str(off, &ins);
+        labels.push("foreign-character-as-a-segment-of-its-own(or next to a separator)");
+    }
     for (at, ch) in foreign {
         let mut off = idx16(at, text.len() + 1);
         while !text.is_char_boundary(off) {
@@ -350,6 +364,7 @@ fn fault() -> BoxedStrategy<Fault> {
         2 => any::<u16>().prop_map(|seg| Fault::CutOff { seg }),
         2 => (any::<u16>(), any::<u8>(), 14u8..=20).prop_map(|(seg, field, digits)| Fault::Overlong { seg, field, digits }),
         3 => (any::<u16>(), foreign_char()).prop_map(|(at, ch)| Fault::Foreign { at, ch }),
+        1 => (any::<u16>(), foreign_char(), any::<bool>()).prop_map(|(at, ch, sep_first)| Fault::ForeignSegment { at, ch, sep_first }),
     ]
     .boxed()
 }
@@ -386,6 +401,11 @@ fn sweep(t: Tier) -> Box<dyn Iterator<Item = Case>> {
             let at = (((off as u32) << 16).div_ceil(len as u32 + 1)).min(65535) as u16;
             for &ch in ascii.iter().chain(wide.iter()) {
                 cases.push(Case { doc: doc.clone(), faults: vec![Fault::Foreign { at, ch }] });
+            }
+            for ch in ['!', ' ', '\n', '=', '-', '_', '.', '\u{e9}'] {
+                for sep_first in [false, true] {
+                    cases.push(Case { doc: doc.clone(), faults: vec![Fault::ForeignSegment { at, ch, sep_first }] });
+                }
             }
         }
         // every 2-byte character once per document, offsets rotating
